@@ -144,19 +144,39 @@ structure LoadObs where
   bound : List (Bytes × Bytes)
   /-- `Get(key)` after the Load, for the probe keys of the case -/
   gets : List (Bytes × Res)
+  /-- the typed getters (`String`, `Int`, `Bool`, …, the `…Or` variants, generic `Get`/`GetOr`) agree
+      with `Get`: a present value, falsy or not, is converted; the default only replaces nil -/
+  typed : Bool
   deriving Repr
 
 /-- the oracle for one Load, given what was observed before it -/
 def loadOK (schema : Bool) (nv : Nat) (prevValues : Kvs) (prevBound : List (Bytes × Bytes))
     (inp : LoadInput) (o : LoadObs) : Bool :=
   if mustFail schema nv inp then
-    o.failed && kvsEq o.values prevValues && o.bound == prevBound
+    o.failed && kvsEq o.values prevValues && o.bound == prevBound && o.typed
   else
     !o.failed && valuesOK (okMaps inp) o.values &&
     (match inp.bind with
      | some (.ok fresh) => o.bound == fresh
      | _ => o.bound == prevBound) &&
-    o.gets.all fun (k, r) => r == specGet (okMaps inp) k
+    (o.gets.all fun (k, r) => r == specGet (okMaps inp) k) && o.typed
+
+/-- Two Loads racing on one `Config` (their sources are read concurrently, their locked regions
+    run in some order): each fails exactly when a fault is injected into it, and the final values
+    and bound struct come from **one** of the successful Loads — both from the same one — or are
+    untouched if both fail. -/
+def raceOK (schema : Bool) (nv : Nat) (prevValues : Kvs) (prevBound : List (Bytes × Bytes))
+    (a b : LoadInput) (failedA failedB : Bool) (values : Kvs) (bound : List (Bytes × Bytes)) : Bool :=
+  let fits (x : LoadInput) : Bool :=
+    valuesOK (okMaps x) values &&
+    (match x.bind with
+     | some (.ok fresh) => bound == fresh
+     | _ => bound == prevBound)
+  (failedA == mustFail schema nv a) && (failedB == mustFail schema nv b) &&
+  (if !mustFail schema nv a && !mustFail schema nv b then fits a || fits b
+   else if !mustFail schema nv a then fits a
+   else if !mustFail schema nv b then fits b
+   else kvsEq values prevValues && bound == prevBound)
 
 /-- a reader saw one of the installed maps, whole: the one before or the one after the Load it ran
     against -/
